@@ -26,17 +26,24 @@ func TestVerifC04Metrics(t *testing.T) {
 	if pb := os.Getenv("VERIF_PORTBASE"); pb != "" {
 		fmt.Sscan(pb, &port)
 	}
+	basePort := port
+	for ti, trusted := range []bool{false, true} {
+		// the same server twice: without trusted proxies, and with 127.0.0.1 as its only trusted proxy
+		port := basePort + ti
+		var tp conf.IPNetworks
+		if trusted {
+			json.Unmarshal([]byte(`["127.0.0.1/32"]`), &tp) //nolint:errcheck
+		}
 	am := &auth.Manager{Method: conf.AuthMethodInternal}
-	m := &Metrics{Address: fmt.Sprintf("127.0.0.1:%d", port), ReadTimeout: conf.Duration(10 * time.Second), WriteTimeout: conf.Duration(10 * time.Second), AuthManager: am, Parent: c04Log{}}
+	m := &Metrics{Address: fmt.Sprintf("127.0.0.1:%d", port), TrustedProxies: tp, ReadTimeout: conf.Duration(10 * time.Second), WriteTimeout: conf.Duration(10 * time.Second), AuthManager: am, Parent: c04Log{}}
 	if err := m.Initialize(); err != nil {
 		t.Fatal(err)
 	}
-	defer m.Close()
 	m.SetPathManager(&c36PM{paths: &defs.APIPathList{Items: []defs.APIPath{{Name: "cam1"}}}, forwards: map[string]*defs.APIForwardDestList{}})
 	base := fmt.Sprintf("http://127.0.0.1:%d", port)
 	routes := []vmon.AdminRoute{{Method: "GET", URL: base + "/metrics", Action: "metrics"}, {Method: "GET", URL: base + "/metrics?type=paths", Action: "metrics"},
 		{Method: "GET", URL: base + "/metrics?path=cam1", Action: "metrics"}, {Method: "POST", URL: base + "/metrics", Action: "metrics"}, {Method: "GET", URL: base + "/", Action: "metrics"}}
-	vmon.AdminAuthMonitor(r, vmon.AdminCfg{Name: "metrics", Routes: routes, Batches: r.N(5, 1200),
+	vmon.AdminAuthMonitor(r, vmon.AdminCfg{TrustedProxy: trusted, Name: "metrics", Routes: routes, Batches: r.N(3, 600),
 		SetUsers: func(uj string) error {
 			var users []conf.AuthInternalUser
 			if err := json.Unmarshal([]byte(uj), &users); err != nil {
@@ -46,5 +53,7 @@ func TestVerifC04Metrics(t *testing.T) {
 			return nil
 		},
 		State: func() string { return "" }})
+		m.Close()
+	}
 	r.Finish(vmon.AdminRule, "metrics part")
 }
